@@ -65,12 +65,14 @@ type Plan struct {
 	UnitTimeout time.Duration                               // watchdog per unit (default 120 s)
 	Passes      []Pass                                      // the whole unit space is explored once per pass (default: one unnamed pass)
 	Extra       func(total map[string]int64) map[string]any // extra evidence keys computed from merged counters
+	Prepare     func(opt *Options) error                    // coordinator-side preparation (e.g. building an instrumented worker)
 }
 
 // Pass is one process-level configuration (e.g. a CPU-feature mask) under which all units are explored.
 type Pass struct {
 	Name string
 	Env  []string
+	Self string // worker binary for this pass (default: Options.Self)
 }
 
 // W is the worker-side context.
@@ -229,6 +231,12 @@ type Options struct {
 // Coordinate runs the plan over worker processes and returns the process exit code.
 func Coordinate(opt Options, plan *Plan, store *kf.Store) int {
 	start := time.Now()
+	if plan.Prepare != nil {
+		if err := plan.Prepare(&opt); err != nil {
+			fmt.Fprintln(os.Stderr, "harness: preparation failed:", err)
+			return 2
+		}
+	}
 	if opt.Workers <= 0 {
 		opt.Workers = runtime.NumCPU()
 	}
@@ -253,6 +261,9 @@ func Coordinate(opt Options, plan *Plan, store *kf.Store) int {
 	}
 	for _, pass := range passes {
 		popt := opt
+		if pass.Self != "" {
+			popt.Self = pass.Self
+		}
 		popt.Env = append(append([]string{}, opt.Env...), pass.Env...)
 		popt.WorkerArgs = append(append([]string{}, opt.WorkerArgs...), "--pass", pass.Name)
 		var queue []job
